@@ -152,6 +152,14 @@ def aztec_stuffing(rng, tier):
         for n in ((20, 58, 60, 300, 1500, 1800, 2000, 2200) if quick else (10, 20, 40, 58, 60, 85, 150, 300, 600, 1000, 1500, 1700, 1800, 1900, 2000, 2100, 2200, 2400)):
             for b in (0x00, 0xFF):
                 out.append("%d 0 %s" % (pct, (bytes([b]) * n).hex()))
+    # the densest encodations at the size only the largest symbols hold (a size pre-check must not assume a
+    # minimum cost per byte): the two-byte pairs cost 5 bits per 2 bytes in PUNCT, digits 4 bits each
+    for pct in ((0, 33) if quick else (0, 10, 23, 33)):
+        for pair in (b"\r\n", b". ", b", ", b": "):
+            for n in ((2600,) if quick else (1500, 2400, 2600, 3000, 3900)):
+                out.append("%d 0 %s" % (pct, (pair * n).hex()))
+        for n in ((3000,) if quick else (2500, 3000, 3600, 3800)):
+            out.append("%d 0 %s" % (pct, (b"7" * n).hex()))
     return out
 
 
@@ -270,6 +278,14 @@ def big_value_digit_runs(rng, lo=1, hi=45):
         out.append("9" * n)
         out.append(rng.choice("89") + digits(rng, n - 1))
         out.append("1" + "0" * (n - 1))
+    # a leading marker digit 1 is put in front of a k-digit group by several encodations ("1" + group): the group
+    # values where 10^k + group crosses 2^31, 2^32, 2^53, 2^63, 2^64 (and the plain crossings below)
+    for P in (1 << 31, 1 << 32, 1 << 53, 1 << 63, 1 << 64):
+        k = len(str(P)) - 1
+        for dlt in (-2, -1, 0, 1, 2, 10 ** (k - 2), 5 * 10 ** (k - 2)):
+            v = P - 10 ** k + dlt
+            if 0 <= v < 10 ** k:
+                out.append(str(v).rjust(k, "0"))
     out += ["9223372036854775807", "9223372036854775808", "18446744073709551615", "18446744073709551616", "4294967295", "4294967296",
             "2147483647", "2147483648", "65535", "65536", "99999999999999999999"]
     return out
